@@ -6,7 +6,7 @@ export GOFLAGS=-mod=mod GOPROXY=off GOSUMDB=off GOTOOLCHAIN=local
 wt=$1; diff=$2; demo=$3
 cd "$wt" || exit 2
 git checkout -q -- . ; git clean -fdq
-pkgname=$(grep -m1 '^package ' "$demo" | awk '{print $2}')
+pkgname=$(grep -m1 '^package ' "$demo" | awk '{print $2}' | sed 's/_test$//')
 case "$pkgname" in
   zenodb) dir=. ;; rpcserver) dir=rpc/server ;; *) dir=$pkgname ;;
 esac
